@@ -27,6 +27,13 @@ Token g_tok;
 static inline QSharedPointer_Token QList_QSharedPointer_Token_const_iterator_op_deref(QList_QSharedPointer_Token_const_iterator it)
 { __CPROVER_assert(it.i >= 0 && it.i < it.n, "C14 iterator: * on an iterator inside the list"); QSharedPointer_Token t; t.p = &g_tok; return t; }
 static inline Token *QSharedPointer_Token_op_arrow(QSharedPointer_Token t) { __CPROVER_assert(t.p != NULL, "C14 pointer: -> on a non-null QSharedPointer"); return t.p; }
+static inline Token *QSharedPointer_Token_data(QSharedPointer_Token t) { return t.p; }
+static inline Token *QSharedPointer_Token_get(QSharedPointer_Token t) { return t.p; }
+static inline QSharedPointer_Token QList_QSharedPointer_Token_at__int(QList_QSharedPointer_Token l, int i)
+{ __CPROVER_assert(i >= 0 && i < l.n, "C14 index in range: QList::at(i) needs 0 <= i < size()"); QSharedPointer_Token t; t.p = &g_tok; return t; }
+static inline QSharedPointer_Token QList_QSharedPointer_Token_op_index__int(QList_QSharedPointer_Token l, int i) { return QList_QSharedPointer_Token_at__int(l, i); }
+static inline int QList_QSharedPointer_Token_size(QList_QSharedPointer_Token l) { return l.n; }
+static inline int QList_QSharedPointer_Token_count(QList_QSharedPointer_Token l) { return l.n; }
 static inline QSharedPointer_Token QSharedPointer_Token_ctor__FormattedTokenP(FormattedToken *t) { QSharedPointer_Token s; s.p = (Token *)t; return s; }
 static inline QSharedPointer_Token QSharedPointer_Token_ctor__LiteralTokenP(LiteralToken *t) { QSharedPointer_Token s; s.p = (Token *)t; return s; }
 
